@@ -34,4 +34,44 @@ mod test {
             "#
         ));
     }
+
+    #[test]
+    fn test_disable_scope_does_not_leak() {
+        let mut ws = crate::VirtualWorkspace::new();
+
+        // `foo2` starts at column 0 of the line after the scope: it touches the scope's
+        // range but is not part of it
+        assert!(!ws.has_no_diagnostic(
+            DiagnosticCode::UndefinedGlobal,
+            "---@diagnostic disable-next-line: undefined-global\nfoo1()\nfoo2()\n"
+        ));
+        assert!(!ws.has_no_diagnostic(
+            DiagnosticCode::UndefinedGlobal,
+            "foo0() ---@diagnostic disable-line: undefined-global\nfoo1()\n"
+        ));
+        assert!(ws.has_no_diagnostic(
+            DiagnosticCode::UndefinedGlobal,
+            "---@diagnostic disable-next-line: undefined-global\nfoo1()\n"
+        ));
+        assert!(ws.has_no_diagnostic(
+            DiagnosticCode::UndefinedGlobal,
+            "foo0() ---@diagnostic disable-line: undefined-global\n"
+        ));
+    }
+
+    #[test]
+    fn test_disable_next_line_at_end_of_file() {
+        let mut ws = crate::VirtualWorkspace::new();
+
+        // no line after the comment: the comment itself is still covered
+        assert!(ws.has_no_diagnostic(
+            DiagnosticCode::TypeNotFound,
+            "---@diagnostic disable-next-line: type-not-found\n---@type Foo"
+        ));
+        // an empty range at the very end of the file belongs to the last line
+        assert!(ws.has_no_diagnostic(
+            DiagnosticCode::DocSyntaxError,
+            "---@diagnostic disable-next-line: doc-syntax-error\n---@param"
+        ));
+    }
 }
